@@ -76,6 +76,35 @@ def field_writes(tree: ast.AST, field: str) -> list[tuple[str | None, str | None
     return out
 
 
+def container_resets(tree: ast.AST, field: str) -> list[tuple[str | None, str, ast.AST]]:
+    """(class, method, node) of every whole-container reset of `self.<field>` outside __init__: re-assignment or .clear()."""
+    out = []
+    for c in [n for n in ast.walk(tree) if isinstance(n, ast.ClassDef)]:
+        for fn in c.body:
+            if not isinstance(fn, (ast.FunctionDef, ast.AsyncFunctionDef)) or fn.name == "__init__":
+                continue
+            for n in ast.walk(fn):
+                if isinstance(n, ast.Attribute) and n.attr == field and isinstance(n.ctx, ast.Store):
+                    out.append((c.name, fn.name, n))
+                if isinstance(n, ast.Call) and isinstance(n.func, ast.Attribute) and n.func.attr == "clear" and isinstance(n.func.value, ast.Attribute) and n.func.value.attr == field:
+                    out.append((c.name, fn.name, n))
+    return out
+
+
+def method_calls(tree: ast.AST, names: set[str]) -> list[tuple[str | None, ast.Call]]:
+    """(enclosing function, call) of every `<expr>.<name>(...)` with name in names."""
+    out = []
+    stack = [(tree, None)]
+    while stack:
+        node, owner = stack.pop()
+        for ch in ast.iter_child_nodes(node):
+            o = ch.name if isinstance(ch, (ast.FunctionDef, ast.AsyncFunctionDef)) else owner
+            stack.append((ch, o))
+            if isinstance(ch, ast.Call) and isinstance(ch.func, ast.Attribute) and ch.func.attr in names:
+                out.append((owner, ch))
+    return out
+
+
 def find_cycles(edges: set[tuple[str, str]]) -> list[list[str]]:
     graph: dict[str, set[str]] = {}
     for a, b in edges:
@@ -103,3 +132,4 @@ FX_FD = "class Inotify:\n    def m(self):\n        return self._inotify_fd\nclas
 FX_SYNTH = "def emitter_code(cls, p):\n    return cls(p, is_synthetic=True)\n"
 FX_WRITE = "class Q:\n    def put(self, item):\n        self._last_item = item\n"
 FX_CYCLE = {("A", "B"), ("B", "A")}
+FX_RESET = "class R:\n    def __init__(self):\n        self._m = {}\n    def forget(self):\n        self._m = {}\n    def wipe(self):\n        self._m.clear()\nclass U:\n    def run(self, r):\n        r.forget()\n"
